@@ -7,7 +7,7 @@ EXPLANATION = ('Same runs as C01 with the assertions on the live object state th
                '(height tag of the last simulate() within 1e-3 m) for the final field, in all outcomes (root, clamped at min, clamped at '
                'max, unmet-continued); every searchTracker row satisfies excess = max(maxEFT-upper, lower-minEFT). A second unit runs the '
                'real OutputManager.get_summary_object on a light design object with symbolic values.')
-OUTSIDE = 'text formatting of the summary; the monthly temperature table.'
+OUTSIDE = 'number-to-text formatting of the summary (which value goes under which label is decided: summary_text_* units); the monthly temperature table.'
 KEYS = ['c12_count', 'c12_eft_height', 'c12_log']
 
 
@@ -81,6 +81,80 @@ def summary_replay(n_bh, k_steps):
     return replay
 
 
+# -- real OutputManager.get_summary_text: which value is written under which label -------------------------------
+TEXT_ROWS = {'Active Borehole Length, m:': '.0f', 'Total Drilling, m:': '.0f', 'NBH:': '.0f', 'Max HP EFT, C:': '.3f', 'Min HP EFT, C:': '.3f',
+             'Borehole Depth, m:': '.2f', 'Borehole Spacing, m:': '.3f'}
+
+
+def _text_expected(H, n_bh, eft, mx, mn):
+    return {'Active Borehole Length, m:': H, 'Total Drilling, m:': H * n_bh, 'NBH:': n_bh, 'Max HP EFT, C:': mx, 'Min HP EFT, C:': mn,
+            'Borehole Depth, m:': 2.0, 'Borehole Spacing, m:': 5.0}
+
+
+def _summary_text_setup():
+    import ghedesigner.output as O
+    from symx.runner import shadow
+    _summary_setup()
+    rows = []
+    tables = []
+    shadow(O.OutputManager, 'd_row', staticmethod(lambda width, label, value, fmt, n_tabs=0: rows.append((label, value, fmt)) or ''))
+    shadow(O.OutputManager, 'create_table', staticmethod(lambda title, heads, data, width, fmts, **kw: tables.append((title, data)) or ''))
+    _summary_text_setup.rows, _summary_text_setup.tables = rows, tables
+
+
+def summary_text_prop(n_bh, k_steps):
+    def fn(e):
+        from ghedesigner.enums import TimestepType
+        from ghedesigner.output import OutputManager
+        from .search_common import conj, disj
+
+        def vals(name):
+            return e.real('H', 20, 400) if name == 'H' else e.real(name, -50, 150)
+        rows, tables = _summary_text_setup.rows, _summary_text_setup.tables
+        del rows[:], tables[:]
+        design, H, coords, eft = _design(vals, n_bh, k_steps)
+        om = OutputManager.__new__(OutputManager)
+        om.get_summary_text(80, 'p', 'n', 'notes', 'a', 1.0, design, TimestepType.HYBRID)
+        got = {}
+        for label, value, fmt in rows:
+            if label in TEXT_ROWS:
+                if label in got:
+                    return False                       # a label of the design written twice
+                got[label] = (value, fmt)
+        if set(got) != set(TEXT_ROWS):
+            return False
+        mx, mn = got['Max HP EFT, C:'][0], got['Min HP EFT, C:'][0]
+        exp = _text_expected(H, n_bh, eft, mx, mn)
+        cs = [got[k][0] == exp[k] for k in sorted(TEXT_ROWS)] + [got[k][1] == TEXT_ROWS[k] for k in sorted(TEXT_ROWS)]
+        cs += [mx >= v for v in eft] + [mn <= v for v in eft] + [disj([mx == v for v in eft]), disj([mn == v for v in eft])]
+        log = [t for t in tables if t[0] == 'Field Search Log']
+        cs.append(len(log) == 1 and log[0][1] is design.searchTracker)
+        return conj(cs)
+    return fn
+
+
+def summary_text_replay(n_bh, k_steps):
+    def replay(model, notes):
+        """native: the real text is produced and parsed; every labelled number must be the expected value in the documented format"""
+        from symx.runner import restore_shadows
+        restore_shadows()
+        from ghedesigner.enums import TimestepType
+        from ghedesigner.output import OutputManager
+        design, H, coords, eft = _design(lambda name: float(model.get(name, 0.0)), n_bh, k_steps)
+        om = OutputManager.__new__(OutputManager)
+        text = om.get_summary_text(80, 'p', 'n', 'notes', 'a', 1.0, design, TimestepType.HYBRID)
+        exp = _text_expected(H, n_bh, eft, max(eft), min(eft))
+        bad = {}
+        for line in text.splitlines():
+            for label, fmt in TEXT_ROWS.items():
+                if line.strip().startswith(label):
+                    shown = line.strip()[len(label):].strip()
+                    if shown != format(exp[label], fmt):
+                        bad[label] = dict(shown=shown, expected=format(exp[label], fmt))
+        return bool(bad), dict(mismatching_rows=bad, H=H, boreholes=n_bh)
+    return replay
+
+
 _units_search = units
 
 
@@ -92,4 +166,9 @@ def units(tier, seed):  # noqa: F811
                        ['output.py:OutputManager.get_summary_object', 'output.py:OutputManager.hours_to_month'],
                        '%d boreholes with symbolic coordinates, height in [20,400], %d symbolic temperatures' % (n_bh, k),
                        stubs=['design object: light namespace carrying symbolic H, coordinates, hp_eft, dTb']))
+    for n_bh, k in ([(3, 3)] if tier == 'quick' else [(3, 3), (1, 4), (6, 2)]):
+        us.append(Unit('summary_text_%dbh_%dsteps' % (n_bh, k), summary_text_prop(n_bh, k), summary_text_replay(n_bh, k), _summary_text_setup,
+                       ['output.py:OutputManager.get_summary_text', 'output.py:OutputManager.hours_to_month'],
+                       '%d boreholes with symbolic coordinates, height in [20,400], %d symbolic temperatures; the value handed to the row formatter under each label' % (n_bh, k),
+                       stubs=['design object: light namespace carrying symbolic H, coordinates, hp_eft, dTb', 'OutputManager.d_row / create_table -> recorders (number-to-text formatting itself is exercised by the native replay only)']))
     return us
